@@ -311,12 +311,51 @@ impl SchemaCatalog {
         let content = serde_json::to_string_pretty(self)
             .map_err(|e| SchemaError::IoError(format!("Failed to serialize schemas: {e}")))?;
 
+        // Write to a temp file, sync it, then rename it over the catalog (same discipline as
+        // shard metadata): a crash never leaves a half-written schema file, which the loader
+        // would silently replace by an empty catalog.
+        let mut tmp_name = path.file_name().unwrap_or_default().to_os_string();
+        tmp_name.push(".tmp");
+        let tmp_path = path.with_file_name(tmp_name);
         #[cfg(inputlayer_verif)]
-        crate::verif_hooks::fs_point("schemacat.save.write:pre");
-        fs::write(path, content)
+        crate::verif_hooks::fs_point("schemacat.save.tmpwrite:pre");
+        fs::write(&tmp_path, content)
             .map_err(|e| SchemaError::IoError(format!("Failed to write schema catalog: {e}")))?;
         #[cfg(inputlayer_verif)]
-        crate::verif_hooks::fs_point("schemacat.save.write:post");
+        crate::verif_hooks::fs_point("schemacat.save.tmpwrite:post");
+
+        #[cfg(inputlayer_verif)]
+        crate::verif_hooks::fs_point("schemacat.save.fsync:pre");
+        if let Err(e) = fs::File::open(&tmp_path).and_then(|f| f.sync_all()) {
+            let _ = fs::remove_file(&tmp_path);
+            return Err(SchemaError::IoError(format!(
+                "Failed to sync schema catalog: {e}"
+            )));
+        }
+        #[cfg(inputlayer_verif)]
+        crate::verif_hooks::fs_point("schemacat.save.fsync:post");
+
+        #[cfg(inputlayer_verif)]
+        crate::verif_hooks::fs_point("schemacat.save.rename:pre");
+        if let Err(e) = fs::rename(&tmp_path, path) {
+            let _ = fs::remove_file(&tmp_path);
+            return Err(SchemaError::IoError(format!(
+                "Failed to write schema catalog: {e}"
+            )));
+        }
+        #[cfg(inputlayer_verif)]
+        crate::verif_hooks::fs_point("schemacat.save.rename:post");
+
+        // Sync the directory so that the rename itself is durable
+        if let Some(parent) = path.parent() {
+            #[cfg(inputlayer_verif)]
+            crate::verif_hooks::fs_point("schemacat.save.dirsync:pre");
+            if let Ok(dir) = fs::File::open(parent) {
+                let _ = dir.sync_all();
+            }
+            #[cfg(inputlayer_verif)]
+            crate::verif_hooks::fs_point("schemacat.save.dirsync:post");
+        }
 
         Ok(())
     }
